@@ -24,6 +24,27 @@ func (x *Explorer) ProveLeq(a, b *Term) bool { // a <= b
 	if a == b {
 		return true
 	}
+	// a - b is a constant (all symbolic parts cancel)
+	if isIntegerTerm(a) && isIntegerTerm(b) && (a.Kind == KBin || b.Kind == KBin) {
+		la, ka, ok1 := x.linear(a, 0)
+		lb, kb, ok2 := x.linear(b, 0)
+		if ok1 && ok2 {
+			same := true
+			for id, c := range la {
+				if lb[id] != c {
+					same = false
+				}
+			}
+			for id, c := range lb {
+				if la[id] != c {
+					same = false
+				}
+			}
+			if same {
+				return ka <= kb
+			}
+		}
+	}
 	v, ok := x.Decide(x.Lt(b, a))
 	if ok && !v {
 		return true
@@ -135,6 +156,15 @@ func (x *Explorer) ProveLeq(a, b *Term) bool { // a <= b
 	// via constants
 	if hi, has := x.Upper(a); has {
 		if lo, has2 := x.Lower(b); has2 && hi <= lo {
+			return true
+		}
+	}
+	// k <= b when b is a positive multiple of k
+	if k, isC := a.Int64(); isC && k > 1 && x.depth < 3 && x.MultipleOf(b, k) {
+		x.depth++
+		r := x.ProveLt(x.T.Int(0), b)
+		x.depth--
+		if r {
 			return true
 		}
 	}
